@@ -200,6 +200,8 @@ func (u *updateExecutor) buildAfterImageSQL(beforeImage types.RecordImage, meta 
 			for _, column := range row.Columns {
 				selectFields += column.ColumnName + separator
 			}
+			// every row of the before image has the same columns
+			break
 		}
 		selectFields = strings.TrimSuffix(selectFields, separator)
 	} else {
